@@ -345,11 +345,17 @@ def gc(max_gb=6.0):
                     sz += os.path.getsize(os.path.join(root, f))
                 except OSError:
                     pass
-        ents.append((os.path.getmtime(p), p, sz))
+        try:
+            ents.append((os.path.getmtime(p), p, sz))
+        except OSError:
+            continue    # removed meanwhile by a concurrent run
         total += sz
     ents.sort()
+    now = time.time()
     while total > max_gb * 1e9 and ents:
-        _, p, sz = ents.pop(0)
+        mt, p, sz = ents.pop(0)
+        if now - mt < 7200 and total < 3 * max_gb * 1e9:
+            break       # young entries may be in use by a check running at the same time
         shutil.rmtree(p, ignore_errors=True)
         total -= sz
 
